@@ -1,17 +1,66 @@
-// Engine `meta` (C17): op line `<block-hex> <key-hex>`
-// output `P <pairs> G <get> F <find> L <len>`; the block lives in an exact-size heap
-// allocation so that any read past it aborts under ASan.
+// Engine `meta` (C17).  Op lines:
+//   <block-hex> <key-hex> <spec>          block of the statement     -> `P <pairs> G <get> F <find> L <len>`
+//   <block-hex> <key-hex> ?               block outside the statement-> `V ok` | `V oob` | `V crash`
+//   M <i> <key-hex> <spec>                block of row i of the fixed port table built with the real
+//                                         macros of rtosc/port-sugar.h -> `M <block-hex> P .. G .. F .. L ..`
+//   M <i> <key-hex> ? <block-hex>         same, row outside the statement (rSpecial) -> `V ok` | `V oob` | `V crash`
+// The block always lives in an exact-size heap allocation so that any read past it aborts under ASan.
+// Out-of-statement lines run the readers in a forked child; only the classification is reported
+// (no read past the block / read past the block / any other abnormal end).
 #include "common.h"
 #include <rtosc/ports.h>
+#include <rtosc/port-sugar.h>
+#include <functional>
+#include <sys/wait.h>
+#include <unistd.h>
 using namespace vh;
 
-static std::string step(const std::string &line) {
-    auto w = words(line);
-    bytes block, key;
-    if (w.size() < 2 || !unhex(w[0], block) || !unhex(w[1], key)) return "bad-op";
-    Exact mem(block);
+// ---------------------------------------------------------------------------------------------
+// fixed port table written with the library's own macros
+// ---------------------------------------------------------------------------------------------
+struct MetaObj {
+    unsigned char vol, pan;
+    int mode, kind;
+    bool on;
+    float freq;
+    char name[32];
+    int steps[4];
+    void panic(void) {}
+};
+#define rObject MetaObj
+// every row is one port-building macro invocation; the metadata literal is whatever the header makes of it
+#define C17_TABLE \
+    rParam(vol, rShort("vol"), rDefault(64), "Volume of the part"), \
+    rParamF(freq, rLog(0.1, 20000), rMap(unit, Hz), rDefault(440.0), "filter: cutoff = f(x)"), \
+    rOption(mode, rOptions(sine, saw tooth, square), rDefault(saw tooth), "Waveform"), \
+    rToggle(on, rPreset(0, true) rPreset(1, false), rDefaultDepends(mode), "Enable"), \
+    rParamI(kind, rPresets(7, 8, 9), rLinear(0, 10), rLinear(1, 5), "Kind (repeated keys)"), \
+    rString(name, 32, rDefaultId(unnamed), rEnabledBy(on), ""), \
+    rArrayI(steps, 4, rDepends(mode, kind), rNoDefaults, rCentered, rBlobType(i), "Steps: a=b:c"), \
+    rAction(panic, "Stop everything"), \
+    rParam(pan, rProp(internal) rProp(alias) rMap(default 0, 0), rDoc("first doc"), "second doc"), \
+    rParam(pan, rSpecial(disable), rDefault(64), "Panning")
+
+struct Lit {                       // remembers the size of the metadata string literal
+    const char *p;
+    size_t n;
+    template <size_t N> Lit(const char (&s)[N]) : p(s), n(N) {}
+};
+struct Row {
+    const char *name;
+    Lit meta;
+    const rtosc::Ports *sub;
+    std::function<void(const char *, rtosc::RtData &)> cb;
+};
+static const Row rows[] = {C17_TABLE};
+static const rtosc::Ports table = {C17_TABLE};
+#undef rObject
+static const size_t nrows = sizeof(rows) / sizeof(rows[0]);
+
+// ---------------------------------------------------------------------------------------------
+static std::string readers(const rtosc::Port &port, const bytes &key0) {
+    bytes key = key0;
     key.push_back(0);
-    rtosc::Port port = {"p", mem.n ? mem.c() : NULL, NULL, nullptr};
     std::string P;
     for (const auto x : port.meta()) {
         if (!P.empty()) P += ",";
@@ -24,5 +73,54 @@ static std::string step(const std::string &line) {
     std::ostringstream o;
     o << "P " << P << " G " << (g ? hexs(g) : std::string("NULL")) << " F " << (f ? 1 : 0) << " L " << l;
     return o.str();
+}
+
+// classification only: run the readers in a child process
+static std::string classify(const rtosc::Port &port, const bytes &key) {
+    int fd[2];
+    if (pipe(fd)) return "V crash";
+    fflush(stdout);
+    pid_t pid = fork();
+    if (pid < 0) return "V crash";
+    if (pid == 0) {
+        close(fd[0]);
+        dup2(fd[1], 2);
+        std::string r = readers(port, key);
+        _exit(r.empty() ? 3 : 0);
+    }
+    close(fd[1]);
+    std::string err;
+    char buf[4096];
+    ssize_t k;
+    while ((k = read(fd[0], buf, sizeof buf)) > 0) err.append(buf, (size_t)k);
+    close(fd[0]);
+    int st = 0;
+    waitpid(pid, &st, 0);
+    if (WIFEXITED(st) && WEXITSTATUS(st) == 0) return "V ok";
+    if (err.find("AddressSanitizer: heap-buffer-overflow") != std::string::npos &&
+        err.find("READ of size") != std::string::npos)
+        return "V oob";
+    return "V crash";
+}
+
+static std::string step(const std::string &line) {
+    auto w = words(line);
+    bytes block, key;
+    if (w.size() >= 4 && w[0] == "M") {
+        size_t i = (size_t)atoi(w[1].c_str());
+        if (i >= nrows || i >= table.ports.size() || !unhex(w[2], key)) return "bad-op";
+        const rtosc::Port &real = table.ports[i];
+        if (!real.metadata || memcmp(real.metadata, rows[i].meta.p, rows[i].meta.n)) return "bad-table";
+        block.assign((const unsigned char *)real.metadata, (const unsigned char *)real.metadata + rows[i].meta.n);
+        Exact mem(block);
+        rtosc::Port port = {real.name, mem.c(), NULL, nullptr};
+        if (w[3] == "?") return classify(port, key);
+        return "M " + hex(block) + " " + readers(port, key);
+    }
+    if (w.size() < 2 || !unhex(w[0], block) || !unhex(w[1], key)) return "bad-op";
+    Exact mem(block);
+    rtosc::Port port = {"p", mem.n ? mem.c() : NULL, NULL, nullptr};
+    if (w.size() >= 3 && w[2] == "?") return classify(port, key);
+    return readers(port, key);
 }
 int main(int argc, char **argv) { return run_lines(argc, argv, step); }
